@@ -453,8 +453,8 @@ var cipherPkgs = []string{
 }
 
 func legConcurrent() {
-	nHere := r.Pick(240, 8000)
-	nRace := r.Pick(48, 1200)
+	nHere := r.Pick(240, 4000)
+	nRace := r.Pick(48, 600)
 	roundsHere, roundsRace := 24, 6
 	groups := make([]*concGroup, nHere)
 	vf.Parallel(nHere, runtime.NumCPU(), func(i int) { groups[i] = makeConcGroup(i) })
